@@ -16,6 +16,7 @@ func checkC06(r *Run) {
 	ruleA15a(r, p, "A15a", "", "syncWriter")
 	ruleA15a(r, p, "A15a", "", "TriggerLevelWriter")
 	rulePoolCount(r, p)
+	ruleBufferPoolClean(r, p, []string{""})
 	r.Floor("A3", 8)
 	r.Floor("A13a", 20)
 	r.Floor("A13b", 20)
